@@ -143,6 +143,7 @@ class HistogramBase(abc.ABC):
         kwargs = new_kwargs
 
         # Frequencies + appropriate dtypes
+        dtype_requested = dtype is not None
         if frequencies is None:
             dtype = dtype or np.int64
             self._frequencies = np.zeros(self.shape, dtype=dtype)
@@ -169,7 +170,18 @@ class HistogramBase(abc.ABC):
         if errors2 is None:
             self.errors2 = abs(self._frequencies.copy())
         else:
-            self.errors2 = np.asarray(errors2, dtype=self.dtype)
+            errors2 = np.asarray(errors2)
+            if self.dtype.kind in "iu" and not np.array_equal(
+                errors2.astype(self.dtype), errors2
+            ):
+                # Fractional squared errors (weights like 0.5) would be truncated
+                if dtype_requested:
+                    raise ValueError(
+                        "Integer histogram requested but the squared errors are not integers."
+                    )
+                self._dtype = np.promote_types(self._dtype, errors2.dtype)
+                self._frequencies = self._frequencies.astype(self._dtype)
+            self.errors2 = errors2.astype(self._dtype)
 
         self.keep_missed = keep_missed
         # Note: missed are dealt differently in 1D/ND cases
